@@ -298,7 +298,7 @@ theorem learn_is_dictionary_call_linked {ctx : LearnCtx} {u u' : UserMap} {m : M
     over any system layers offers it with a positive frequency.
     Discharged: "close + reopen preserves the map" = `C10.durable_lookup_linked` (durability for all
     schedules + C09's snapshot lemma + C09's answers of a settled state) and `C09.layered_over_map`.
-    Remaining: a complete file is the leaves written (byte-level round trip: C11). -/
+    The file is C09's abstract `List Leaf` here; `learned_persists_bytes_linked` below has it as bytes. -/
 theorem learned_persists_linked (t0 : List Leaf) (h0 : Trie.SnapOk t0) (tmp : Option DictLink.CFile)
     (htmp : DictLink.TmpOk tmp) (acts : List DictLink.CAct) (hok : ∀ a ∈ acts, DictLink.CActOk a)
     (cw : DictLink.CWorld) (hrun : DictLink.crun (DictLink.cinit t0 tmp) acts = some cw)
@@ -311,6 +311,33 @@ theorem learned_persists_linked (t0 : List Leaf) (h0 : Trie.SnapOk t0) (tmp : Op
       ∃ p ∈ Layered.lookupAll (sys ++ [TrieBuf.toDict (DictLink.freshSt t)]) key .standard,
         p.text = x ∧ 1 ≤ p.freq :=
   LearnLink.persists_linked t0 h0 tmp htmp acts hok cw hrun hcl u hu key x hlive sys
+
+/-- **… and with the file as bytes**: nothing about files is assumed any more.  The chain is
+    `C11` (the bytes `TrieBuilder::write` produces, read by `Trie::new` / `lookup_all_phrases`, are the
+    entries inserted) → `C09.file_layer_is_C11` (those bytes denote C09's abstract file `Trie.build es`) →
+    `Proofs/DictLinkBytes` (along every run of the protocol every complete file is such a `Trie.build es`)
+    → `C10.durable_lookup_bytes_linked` → here.  Explicit hypotheses: the initial file was written from
+    valid entries, the `DictionaryMut` calls have arguments of the Rust types (`CActValid`), every snapshot
+    the history can take fits the limits of the trie format (`SnapshotsOk … FitsInfo` = C11's `Fits`, under
+    which `write` cannot fail), the key has non-zero syllables.  Conclusion: the **bytes** of the file at
+    the path exist and open, the real reader's exact lookup lists the learned phrase with exactly the
+    learned (frequency, time), and `Layered` over any system layers offers it with a positive frequency. -/
+theorem learned_persists_bytes_linked (info : TrieCodec.Info) (hinfo : TrieCodec.ValidInfo info)
+    (es0 : List Entry) (hv0 : ∀ e ∈ es0, TrieCodec.ValidEntry e) (hfit0 : C10.FitsInfo info es0)
+    (tmp : Option DictLink.CFile) (htmp : DictLink.TmpWritten (C10.FitsInfo info) tmp)
+    (acts : List DictLink.CAct) (hok : ∀ a ∈ acts, DictLink.CActOk a) (hval : ∀ a ∈ acts, DictLink.CActValid a)
+    (hfit : DictLink.SnapshotsOk (C10.FitsInfo info) (DictLink.cinit (Trie.build es0) tmp) acts)
+    (cw : DictLink.CWorld) (hrun : DictLink.crun (DictLink.cinit (Trie.build es0) tmp) acts = some cw)
+    (hcl : cw.phase = .closed)
+    (u : UserMap) (hu : LearnLink.URep u (MapSpec.Map.run (TrieBuf.baseGet (Trie.build es0)) (DictLink.opsOf acts)))
+    (key : List Nat) (hkey : C11.ValidKey key) (x : Text) (hlive : Live u (key, x)) (sys : List Dict) :
+    ∃ es bytes tr, cw.fs .path = some (.complete (Trie.build es)) ∧
+      (TrieCodec.Builder.ofEntries info es).write = some bytes ∧ TrieCodec.openTrie bytes = some tr ∧
+      (∃ p ∈ TrieCodec.lookupAll tr key .standard, p.text = x ∧ u.get? (key, x) = some (MapSpec.valOf p)) ∧
+      TrieBuf.lookupAll (DictLink.freshSt (Trie.build es)) key .standard = dedup (TrieCodec.lookupAll tr key .standard) ∧
+      ∃ p ∈ Layered.lookupAll (sys ++ [TrieBuf.toDict (DictLink.freshSt (Trie.build es))]) key .standard,
+        p.text = x ∧ 1 ≤ p.freq :=
+  LearnLink.persists_bytes_linked info hinfo es0 hv0 hfit0 tmp htmp acts hok hval hfit cw hrun hcl u hu key hkey x hlive sys
 
 /-! ## "repeating … a bounded number of times makes X the default" -/
 
